@@ -18,34 +18,9 @@ FAMS = ["faults"]
 
 # Host panics demonstrated on the unchanged /repo (each reported to the integrator with a minimal input and a fix);
 # signatures are computed by Trace_Faults.Sig / Trace_URLState.Sig.
-PROPOSED_KNOWN = [
-    {"kind": "known", "signature": {"fam": "faults", "fault": "unhashable-read", "cause": "OpMapIndex"},
-     "what": "m[k] with an unhashable dynamic key (map[any]T, struct key holding a slice): convertPanic has no OpMapIndex case -> host panic 'hash of unhashable type', even under recover()"},
-    {"kind": "known", "signature": {"fam": "faults", "fault": "unhashable-delete", "cause": "OpDelete"},
-     "what": "delete(m, k) with a func/map dynamic key: convertPanic's OpDelete case only matches the 'hash of unhashable type: ' spelling, not 'runtime error: hash of unhashable type ' -> host panic"},
-    {"kind": "known", "signature": {"fam": "faults", "fault": "make-slice", "cause": "OpMakeSlice"},
-     "what": "make([]T, n) with a huge n: the Go run time's 'runtime: allocation size out of range' is not classified by convertPanic -> host panic (gc: panic: makeslice: len out of range)"},
-    {"kind": "known", "signature": {"fam": "faults", "fault": "make-chan", "cause": "OpMakeChan"},
-     "what": "make(chan T, n) with a huge n: 'makechan: size out of range' (a runtime.Error) is not classified by convertPanic -> host panic"},
-    {"kind": "known", "signature": {"fam": "faults", "fault": "append-overflow", "cause": "OpAppendSlice"},
-     "what": "append overflow: reflect now panics with 'reflect.Value.Grow: slice overflow', convertPanic expects 'reflect.Append: slice overflow' -> host panic"},
-    {"kind": "known", "signature": {"fam": "faults", "fault": "chan-send-select", "cause": "OpSelect"},
-     "what": "send on a closed channel in a select case: convertPanic has no OpSelect case -> host panic 'send on closed channel'"},
-    {"kind": "known", "signature": {"fam": "faults", "fault": "nil-deref", "cause": "-OpTypify"},
-     "what": "*p = v through a nil pointer: reflect.Value.Set on zero Value (*reflect.ValueError) instead of a nil dereference run-time error -> host panic"},
-    {"kind": "known", "signature": {"fam": "faults", "fault": "nil-deref", "cause": "OpRange"},
-     "what": "for _, x := range p with p a nil *[N]T: reflect.Value.Len on zero Value -> host panic"},
-    {"kind": "known", "signature": {"fam": "faults", "fault": "native-runtime-error", "cause": "OpCallNative"},
-     "what": "a runtime.Error raised inside a native function or method (nil-map write in host code, value method through a nil pointer) is turned into fatalError by convertPanic ('TODO: check env') -> host panic, not recoverable"},
-    {"kind": "known", "signature": {"fam": "faults", "fault": "native-callback", "cause": "callback-vm"},
-     "what": "a panic in a Scriggo function called back from native code: callable.Value wraps the *PanicError of the nested VM in a fatalError -> host panic, not recoverable by the caller"},
-    {"kind": "known", "signature": {"fam": "faults", "cause": "defer-in-template-function"},
-     "what": "template: after a call of a function literal that has a deferred call, nextCall restores vm.renderer from a call frame that never stored it (OpCallFunc/OpCallIndirect) -> the next Text/Show dereferences a nil renderer -> host panic"},
-    {"kind": "known", "signature": {"fam": "faults", "fault": "recursion", "cause": "-OpSubInt"},
-     "what": "finite recursion ~500 deep of a function without results: the argument of the next call is written past the int register stack before the call grows it -> host panic 'index out of range [512] with length 512'"},
-    {"kind": "known", "signature": {"fam": "urlstate", "cause": "showInURL: s[len(s)-1] with empty s (query && removeQuestionMark)"},
-     "what": "renderer.showInURL reads s[len(s)-1] of an empty shown value when a previous shown value contained '?' -> host panic index out of range [-1]"},
-]
+# eleven of the thirteen causes found by this check were fixed in /repo (known-findings.json, kind "fixed"); the two below are
+# deliberate-looking behaviour of native calls (no documented contract) and stay listed as known findings
+PROPOSED_KNOWN = []
 
 
 # ---------------------------------------------------------------------------------------------- helpers
